@@ -421,7 +421,7 @@ pub fn sections() -> Vec<Box<dyn Section>> {
     vec![
         Box::new(Random {
             name: "near-collision-pairs-and-triples".into(),
-            quick: 120_000,
+            quick: 80_000,
             thorough: 4_000_000,
             strategy: Box::new(|_| {
                 (prop_oneof![gtuple(false), gtuple(true)], gmutation(), proptest::option::weighted(0.4, gmutation()), gchoices())
